@@ -227,9 +227,17 @@ class Layout:
     """Decides optional whitespace, line breaks inside parentheses, comments and blank
     lines.  Layout(None) is the canonical, minimal layout."""
 
-    def __init__(self, rng=None, noise=0.3, breaks=0.0, comments=0.0, tight=False):
+    def __init__(self, rng=None, noise=0.3, breaks=0.0, comments=0.0, tight=False, inner_p=None, pre_p=0.0):
         self.rng, self.noise, self.breaks, self.comments, self.tight = rng, noise, breaks, comments, tight
+        self.inner_p = noise if inner_p is None else inner_p
+        self.pre_p = pre_p
         self.depth = 0
+
+    def pre(self):
+        """Whitespace between a term and its index bracket."""
+        if self.rng is None or self.rng.random() >= self.pre_p:
+            return ''
+        return self.rng.choice([' ', '  ', '\t'])
 
     def ws(self, default=''):
         """Optional whitespace at a token boundary where Python allows any."""
@@ -242,9 +250,9 @@ class Layout:
 
     def inner(self):
         """Whitespace directly inside {..}, <..> and [..]."""
-        if self.rng is None or self.rng.random() >= self.noise:
+        if self.rng is None or self.rng.random() >= self.inner_p:
             return ''
-        return self.rng.choice([' ', '  '])
+        return self.rng.choice([' ', '  ', '\t'])
 
     def brk(self):
         """A possible line break (only ever requested while inside parentheses)."""
@@ -252,10 +260,11 @@ class Layout:
             return ''
         c = ''
         if self.rng.random() < self.comments:
-            c = ' # ' + self.rng.choice(['note', 'x = 1', 'Y[t] (ignored)', '{a} <b> `c`', ')', '('])
-            if '(' in c or ')' in c:
-                c = ' # note'  # brackets in comments are stripped before counting, but keep the catalogue conservative
-        return c + '\n' + self.rng.choice(['', ' ', '    ', '\t'])
+            c = self.rng.choice([' # ', '# ', '#', '  #']) + self.rng.choice(['note', 'x = 1', 'Y[t] (ignored)', '{a} <b> `c`', 'a ) b', '( open'])
+        extra = ''
+        if self.rng.random() < self.comments * 0.5:
+            extra = self.rng.choice(['\n', '\n   ', '\n# a comment-only line', '\n\t# indented comment'])   # blank / comment-only lines inside the statement
+        return c + extra + '\n' + self.rng.choice(['', ' ', '    ', '\t'])
 
 
 def render(node, mode, lay):
@@ -271,7 +280,7 @@ def render(node, mode, lay):
         if mode == 'code':
             return f"self[{node.name!r}, {key}]"
         idx = f'`{node.label}`' if node.style == '`' else f'{node.style}{node.label}{node.style}'
-        return wrap_kind(node.name, node.kind, lay) + f'[{lay.inner()}{idx}{lay.inner()}]'
+        return wrap_kind(node.name, node.kind, lay) + f'{lay.pre()}[{lay.inner()}{idx}{lay.inner()}]'
     if isinstance(node, Neg):
         return '-' + (lay.ws() if mode == 'script' else '') + render(node.e, mode, lay)
     if isinstance(node, Bin):
@@ -350,7 +359,7 @@ def render_var(v, mode, lay):
         txt = str(v.off)
         if v.off > 0 and v.plus:
             txt = '+' + txt
-        s += f'[{lay.inner()}{txt}{lay.inner()}]'
+        s += f'{lay.pre()}[{lay.inner()}{txt}{lay.inner()}]'
     return s
 
 
@@ -360,9 +369,8 @@ def render_eq(eq, mode, lay=None):
         return f'W({eq.lhs.name!r}, {eq.lhs.off}, {render(eq.rhs, mode, lay)})'
     if mode == 'code':
         return f'{render_var(eq.lhs, mode, lay)} = {render(eq.rhs, mode, lay)}'
-    # script: no whitespace is allowed inside the left-hand side term itself
-    lhs = eq.lhs.name + (f'[{eq.lhs.off if not (eq.lhs.plus and eq.lhs.off > 0) else "+" + str(eq.lhs.off)}]' if eq.lhs.explicit else '')
     lay.depth = 0
+    lhs = render_var(eq.lhs, 'script', lay)
     rhs = render(eq.rhs, mode, lay)
     return f'{lhs}{lay.ws(" ")}={lay.ws(" ")}{rhs}'
 
@@ -388,7 +396,7 @@ def render_program(prog, lay=None):
         else:
             line = render_eq(s, 'script', lay)
             if lay.rng is not None and lay.comments and lay.rng.random() < lay.comments:
-                line += lay.rng.choice(['  # trailing', ' #', '\t# = + {x}'])
+                line += lay.rng.choice(['  # trailing', ' #', '\t# = + {x}', '# no space before', '#'])
             out.append(line)
     return '\n'.join(out)
 
